@@ -225,7 +225,25 @@ Definition row_xs2 (r : arow) (env : actenv) : Q := (r_xs_par r + epi_factor env
 Definition row_flux (r : arow) (env : actenv) : Q :=
   if r_fast r then (fluence env / fast_ratio env)%Q else fluence env.
 
-Definition activity_row_with (small_branch : bool) (r : arow) (amass : Z) (mass : Q) (env : actenv) (exposure : Q) : outcome :=
+(* the repaired form (x = d*exposure; W*exp(-U)*-expm1(-x) if x >= 0 else W*exp(-V)*expm1(x)) *)
+Definition act_x (lam k1 kb t : expr) : expr := act_d lam k1 kb *: t.
+Definition expm1_code_pos (root lam k1 kb t : expr) : expr :=
+  root *: (lam /: act_d lam k1 kb *: eexp_neg (k1 *: t) *: ENeg (expm1 (ENeg (act_x lam k1 kb t)))).
+Definition expm1_code_neg (root lam k1 kb t : expr) : expr :=
+  root *: (lam /: act_d lam k1 kb *: eexp_neg (act_V lam kb t) *: expm1 (act_x lam k1 kb t)).
+(* no subtraction of nearly equal numbers is left; what remains is the sensitivity of W*expm1(-d t) to the
+   rounding of d = lam - k1 + kb: relative (lam+|k1|+|kb|)/|d| when |d t| is large, (lam+|k1|+|kb|) t when small *)
+Definition emin (a b : expr) : expr := (a +: b -: EAbs (a -: b)) /: c 2.
+Definition expm1_scale (value lam k1 kb t : expr) : expr :=
+  let s := lam +: EAbs k1 +: EAbs kb in
+  EAbs value *: (c 1 +: emin (s /: EAbs (act_d lam k1 kb)) (s *: EAbs t)).
+
+(* the three features of activity() the translator reads from the source *)
+Record actcfg := mkCfg { cfg_small : bool;      (* the |U|,|V| < 1e-10 branch exists *)
+                         cfg_expm1 : bool;      (* the burn-up difference is computed through expm1 *)
+                         cfg_err_g : bool }.    (* the error message formats the isotope with %g (TypeError) *)
+
+Definition activity_row_with (cfg : actcfg) (r : arow) (amass : Z) (mass : Q) (env : actenv) (exposure : Q) : outcome :=
   if (r_fast r && Qeq_bool (fast_ratio env) 0)%bool then OSkip else
   let initialXS := row_xs r env in
   let flux := row_flux r env in
@@ -258,25 +276,35 @@ Definition activity_row_with (small_branch : bool) (r : arow) (amass : Z) (mass 
       else lin_ln2_neg (- (kb * t) - SMALL)%Q (- (t / r_thalf r))%Q in
     let usmall := Qlt_bool (Qabs U) SMALL in
     let spec := act_spec (c (KUCI * mass / inject_Z amass)%Q) lam (c k1) (c kb) (c t) in
-    match (if (small_branch && usmall)%bool then vsmall else Some false) with
+    match (if (cfg_small cfg && usmall)%bool then vsmall else Some false) with
     | None => OUndecided
     | Some true =>
-        (* activity < 0 raises; the message formats the isotope with %g, which is a TypeError.
+        (* activity < 0 raises RuntimeError; a message that formats the isotope with %g is a TypeError instead.
            sign of root*W*(3V-U)/2: decided through ln 2 bounds *)
         let dneg := lin_ln2_neg (kb - k1)%Q (1 / r_thalf r)%Q in                       (* d < 0 *)
         let nneg := lin_ln2_neg (3 * kb * t - U)%Q (3 * t / r_thalf r)%Q in            (* 3V-U < 0 *)
         match dneg, nneg with
         | Some dn, Some nn =>
-            if (xorb dn nn && negb (Qeq_bool root 0))%bool then ORaise TypeErr
+            if (xorb dn nn && negb (Qeq_bool root 0))%bool then ORaise (if cfg_err_g cfg then TypeErr else RuntimeErr)
             else OAct BSmall (small_code (c root) lam (c k1) (c kb) (c t)) (small_scale (c root) lam (c k1) (c kb) (c t)) lam spec
         | _, _ => OUndecided
         end
     | Some false =>
-        OAct BMain (main_code (c root) lam (c k1) (c kb) (c t)) (main_scale (c root) lam (c k1) (c kb) (c t)) lam spec
+        if cfg_expm1 cfg then
+          (* if x >= 0: ... else: ...   x = (kb - k1) t + (t/T) ln 2; both forms denote the same real, so an
+             undecidable sign (|x| below the resolution of the ln 2 bounds) takes the first *)
+          let a := match lin_ln2_neg ((kb - k1) * t)%Q (t / r_thalf r)%Q with
+                   | Some true => expm1_code_neg (c root) lam (c k1) (c kb) (c t)
+                   | _ => expm1_code_pos (c root) lam (c k1) (c kb) (c t)
+                   end in
+          OAct BMain a (expm1_scale a lam (c k1) (c kb) (c t)) lam spec
+        else
+          OAct BMain (main_code (c root) lam (c k1) (c kb) (c t)) (main_scale (c root) lam (c k1) (c kb) (c t)) lam spec
     end.
 
 (* the code as it stands: with the small-argument branch iff the source still has it (Gen flag) *)
-Definition activity_row := activity_row_with act_small_branch.
+Definition current_cfg : actcfg := mkCfg act_small_branch act_expm1_form act_error_formats_isotope_with_g.
+Definition activity_row := activity_row_with current_cfg.
 
 (* result[ai] = [activity*exp(-lam*Ti) for Ti in rest_times] *)
 Definition rest_model (a lam : expr) (ti : Q) : expr := a *: eexp_neg (lam *: c ti).
